@@ -124,6 +124,7 @@ func oneRound(rng *rand.Rand, pattern string, idx int) (rep roundReport) {
 	}
 	// ---- build the requests on the quiescent state ----
 	var reqs []*request
+	coldStart := false
 	addTx := func(x *pb.Transaction, label string) {
 		if x != nil {
 			reqs = append(reqs, &request{Kind: "dotx", Tx: x, Label: label})
@@ -175,6 +176,25 @@ func oneRound(rng *rand.Rand, pattern string, idx int) (rep roundReport) {
 		fam("kv-ww", 1)
 		reqs = append(reqs, &request{Kind: "play", Block: playBlock, Label: "play"})
 		reqs = append(reqs, &request{Kind: "balance", Addr: sn.K(0).Address, Label: "balance"})
+	case "balance-cold":
+		// transfers towards one address while observers ask its balance on cold caches
+		to := sn.K(rng.Intn(4))
+		for i := 0; i < 4; i++ {
+			from := sn.K((i + 1) % 4)
+			ins, _, tot, err := s.N.State.SelectUtxos(from.Address, big.NewInt(int64(1+rng.Intn(40))), true, false)
+			if err != nil {
+				continue
+			}
+			x, err := sn.BuildTx(sn.TxSpec{Initiator: from.Address, Signers: []*sn.Key{from}, Inputs: ins,
+				Outputs: []sn.Out{{To: to.Address, Amount: tot}}, Nonce: fmt.Sprintf("bal%d-%d", idx, i), Timestamp: int64(9000 + i)})
+			if err == nil {
+				addTx(x, "pay")
+			}
+		}
+		for i := 0; i < 3; i++ {
+			reqs = append(reqs, &request{Kind: "balance", Addr: to.Address, Label: "balance"})
+		}
+		coldStart = true
 	case "mixed":
 		fam("double-spend", 1)
 		fam("kv-rw", 1)
@@ -188,6 +208,12 @@ func oneRound(rng *rand.Rand, pattern string, idx int) (rep roundReport) {
 		reqs = reqs[:8]
 	}
 	rng.Shuffle(len(reqs), func(i, j int) { reqs[i], reqs[j] = reqs[j], reqs[i] })
+	if coldStart {
+		if op := s.Reopen(); op.Result != "ok" {
+			problem("harness|setup", "reopen failed: %s", op.Result)
+			return
+		}
+	}
 	baseModel, err := s.ModelAt(base)
 	if err != nil {
 		problem("model|fresh-node-accepted-inadmissible-tx", "%v", err)
@@ -315,6 +341,7 @@ func oneRound(rng *rand.Rand, pattern string, idx int) (rep roundReport) {
 		rep.Porcupine = checkLinearizable(reqs, baseModel, height, problem)
 	}
 	// (d) quiescent-state auditors
+	hist.CanonSelect = false
 	hist.TwinSelect = false // temporary selection locks are allowed to outlive the round
 	op := hist.Op{Kind: "concurrent-" + pattern}
 	for _, a := range []hist.Auditor{hist.ModelAuditor, hist.CanonAuditor, hist.TwinAuditor} {
